@@ -8,23 +8,18 @@
   behaviour switches `Flags.coded` come from Gen/ReceivePack.lean, regenerated from /repo on every run.
 
   The four full statements are `def …Statement (fl : Flags) : Prop`.  For the behaviour of the unchanged
-  source (`Flags.unrepaired`; `coded_is_unrepaired_or_repaired` says which one the source is) each of them
-  is FALSE — `…_counterexample` (finding F5).  What does hold for every command list is proved as
-  `…_partial` for arbitrary flags; for `Flags.repaired` (the proposed fix: use the CAS result, reject
-  missing objects, validate old values under atomic) the full statements are proved.
+  source (`Flags.unrepaired`: all three switches off — the evidence records which switches the translator
+  found in the source) each of them is FALSE — `…_counterexample` (finding F5).  What does hold for every
+  command list is proved as `…_partial` for ARBITRARY flags, so in particular for `Flags.coded` whatever the
+  source does; the full statements are proved for every behaviour that has the relevant switch on
+  (`…_of_useCas`, `…_of_checkNew`, `…_of_validation`) and hence for `Flags.repaired` (the proposed fix: use
+  the CAS result, reject missing objects, validate old values under atomic).
 -/
 import DulwichModel.Lemmas.ReceivePack
 
 namespace Dulwich.Props.C06
 open Dulwich Dulwich.ReceivePack
 open Dulwich.Gen.ReceivePack (okMsg unpackName atomicCap)
-
-/-! ## 0. which behaviour the source has -/
-
-/-- The translator found one of the two behaviours the theorems below talk about (all three switches off:
-F5 present; all three on: repaired).  A half-applied fix breaks this obligation. -/
-theorem coded_is_unrepaired_or_repaired : Flags.coded = Flags.unrepaired ∨ Flags.coded = Flags.repaired := by
-  decide
 
 /-! ## 1. status ok ⇔ the ref now holds the requested value -/
 
@@ -108,8 +103,8 @@ theorem status_iff_changed_counterexample : ¬ StatusIffChangedStatement Flags.u
   revert this
   decide
 
-/-- non-vacuity of §1: an instance with hook, capability, pack and two commands satisfying all hypotheses,
-where the matching command is applied and reported ok -/
+/-- non-vacuity of §1: a two-command instance satisfying all hypotheses, where the matching command is applied
+and reported ok and the stale one is rejected -/
 example : distinctNames [staleCmd, createX] ∧
     (applyPack Flags.repaired Env.quiet [] srv1 (.ok []) [staleCmd, createX]).raised = none ∧
     reportedOk (applyPack Flags.repaired Env.quiet [] srv1 (.ok []) [staleCmd, createX]) nX ∧
@@ -228,9 +223,13 @@ theorem atomic_all_or_none_partial (fl : Flags) (env : Env) (caps : List Bytes) 
 /-- FULL statement for the repaired behaviour (old values and new objects validated before anything is
 applied).  The hypothesis "no I/O failure while applying" (`env.fault … = none`) is part of the statement:
 neither the code nor the proposed fix rolls back. -/
-theorem atomic_all_or_none_repaired : AtomicAllOrNoneStatement Flags.repaired := by
+theorem atomic_all_or_none_of_validation (fl : Flags) (ha : fl.atomicOld = true) (hn : fl.checkNew = true) :
+    AtomicAllOrNoneStatement fl := by
   intro env caps s u cmds hat hnd hf
-  exact applyPack_atomic_gen Flags.repaired env caps s u cmds hat hnd hf (Or.inl ⟨rfl, rfl⟩)
+  exact applyPack_atomic_gen fl env caps s u cmds hat hnd hf (Or.inl ⟨ha, hn⟩)
+
+theorem atomic_all_or_none_repaired : AtomicAllOrNoneStatement Flags.repaired :=
+  atomic_all_or_none_of_validation Flags.repaired rfl rfl
 
 /-- As coded, `atomic` with `[create x = c, stale m: a → c]` applies the first and not the second
 (F5, third part). -/
@@ -275,6 +274,19 @@ theorem status_one_entry_per_command (fl : Flags) (env : Env) (caps : List Bytes
     simp only [List.map_cons]
     rw [refLoop_status_names fl env caps _ cmds hr]
   · right; exact h2
+
+/-- The hypothesis `raised = none` of §1 follows from a condition on the inputs alone: deletions are not
+refused, every exception the ref container raises for a commanded name is of a class one of the two handlers
+catches (as coded: `all_exceptions` or `KeyError`), and a failing unpack raises something in `all_exceptions`. -/
+theorem no_exception_escapes (fl : Flags) (env : Env) (caps : List Bytes) (s : Srv) (u : Unpack) (cmds : List Cmd)
+    (h : NoEscape env caps cmds)
+    (hu : ∀ mro, u = .raises mro → catches Gen.ReceivePack.allExceptions mro = true) :
+    (applyPack fl env caps s u cmds).raised = none :=
+  applyPack_no_raise fl env caps s u cmds h hu
+
+/-- non-vacuity: with the source's own capability list the condition holds for a quiet environment -/
+example : NoEscape Env.quiet [atomicCap] [createX, staleCmd] :=
+  ⟨by decide, fun _ _ _ h => by simp [Env.quiet] at h⟩
 
 /-- An exception from the ref container that neither handler catches (as coded: `RefFormatError` for an
 invalid ref name — it is not a `KeyError`) ends the handler after earlier commands were applied: `x` is
